@@ -755,16 +755,18 @@ def strip_value(v):
 def gen_invoke(src):
     c = gen_coerce(src, typed_fn=False)
     # half of the cases bind the argument by name: `f(p: v)` goes through the named dispatch, which coerces on its own
-    return {"target": strip_empty_context(R.from_case(c["target"])), "value": strip_value(c["value"]), "named": src.bool(0.5)}
+    # half of the cases have the parameter's name bound in the caller's scope as well (to a value of no generated type's kind): the parameter of
+    # the invocation hides it whatever the coercion made of the argument
+    return {"target": strip_empty_context(R.from_case(c["target"])), "value": strip_value(c["value"]), "named": src.bool(0.5), "outer": src.bool(0.5)}
 
 
 def reqs_invoke(case):
     t = R.from_case(case["target"])
     arg = "p: " if case.get("named") else ""
     text = "(function(p: %s) p)(%sv)" % (R.show(t), arg)
-    return [{"op": "eval", "scope": [[["v", feel_binding(case["value"])]]], "text": text, "repeat": 1},
-            {"op": "eval", "scope": [[["v", feel_binding(case["value"])]]], "text": "(function(p: %s) p)(%s(function(p: %s) p)(%sv))" % (
-                R.show(t), arg, R.show(t), arg)}]
+    scope = [[["v", feel_binding(case["value"])]] + ([["p", {"dtd": "PT77H"}]] if case.get("outer") else [])]
+    return [{"op": "eval", "scope": scope, "text": text, "repeat": 1},
+            {"op": "eval", "scope": scope, "text": "(function(p: %s) p)(%s(function(p: %s) p)(%sv))" % (R.show(t), arg, R.show(t), arg)}]
 
 
 def judge_invoke(ctx, case, resp):
